@@ -84,6 +84,12 @@ def extractor_view(index):
                 if d[5:] == "extract_to_humans_feed_and_biofuel":
                     return tuple(Path((f"call{n}", str(k))) for k in range(3))
                 return Path((f"call{n}",))
+            if d == "self.to_monthly_list":
+                return Opaque("monthly-list")
+            if d == "Food":
+                return PDict(dict(kw))
+            if d == "np.array" and len(a) == 1 and not kw:
+                return a[0]
             return NotImplemented
 
         it.call_hook = hook
@@ -130,8 +136,10 @@ def extractor_deep(index):
                 return Rat.atom(("series", ".".join(str(x) for x in series[0].parts))) * interp.to_rat(conv[0])
             if d == "Food":
                 return PDict(dict(kw))
-            if d and d.startswith("self.") and d[5:] in _EXTRACT_STEPS and d[5:] != "extract_to_humans_feed_and_biofuel":
+            if d and d.startswith("self.") and d[5:] in _EXTRACT_STEPS and d[5:] not in ("extract_to_humans_feed_and_biofuel", "extract_meat_milk_results"):
                 return Path(("step", d[5:]))
+            if d == "np.array" and len(a) == 1 and not kw:
+                return a[0]
             return NotImplemented
 
         it.call_hook = hook
@@ -213,9 +221,9 @@ def chain(index, rep, db):
     asg = [norm_src(s) for s in gh.body if isinstance(s, ast.Assign)]
     rep.check(rets == ["self.greenhouse_percent_fed.in_units_billions_fed()"] and f"self.greenhouse_percent_fed = {par}" in asg, rule,
               "extractor:greenhouse-helper", "get_greenhouse_results does not return its argument converted to billions fed", loc=loc(EXT, gh))
-    if "extract_outdoor_crops_results" not in step or "extract_meat_milk_results" not in step:
-        raise AnalysisError("extract_results no longer calls extract_outdoor_crops_results / extract_meat_milk_results")
-    oc, mm = step["extract_outdoor_crops_results"][1], step["extract_meat_milk_results"][1]
+    if "extract_outdoor_crops_results" not in step:
+        raise AnalysisError("extract_results no longer calls extract_outdoor_crops_results")
+    oc = step["extract_outdoor_crops_results"][1]
     ocf = index.func(EXT, "Extractor.extract_outdoor_crops_results")
     # what the call hands over, by parameter: the nine crop variable families and the crop supply series, each once (the names and the order
     # of the parameters are the callee's own business; what each parameter is *used for* is read below through this binding)
@@ -266,10 +274,17 @@ def chain(index, rep, db):
                     detail = str({l_: str(r_.d.get(l_)) for l_ in want_})
         rep.check(ok, rule, f"extractor:outdoor_crops:{use}", f"outdoor_crops_{use} is not built from the {use} crop variables (kcals, fat, protein)",
                   loc=loc(EXT, ocf), detail=detail)
-    mmf = index.func(EXT, "Extractor.extract_meat_milk_results")
-    got = sorted(path_text(a) or "?" for a in step["extract_meat_milk_results"][2].values())
-    rep.check(got == sorted(["variables.meat_eaten", "tc.milk_kcals", "tc.milk_fat", "tc.milk_protein"]), rule,
-              "extractor:meat-milk:arguments", f"meat/milk extraction receives {got}", loc=loc(EXT, mm))
+    # meat and milk, evaluated through whatever helpers build them: meat from the optimiser's meat_eaten variables, milk's three lanes from the
+    # three milk supply series
+    def sources(v_, lane):
+        x_ = v_.d.get(lane) if isinstance(v_, PDict) else None
+        if not isinstance(x_, Rat):
+            return None
+        return sorted({a_[1] for a_ in x_.atoms() if isinstance(a_, tuple) and a_ and a_[0] == "series"} | {
+            ".".join(a_.path) for a_ in x_.atoms() if isinstance(a_, K) and a_.path[0] == "tc"})
+    got = [sources(deep.get("meat"), l_) for l_ in ("kcals", "fat", "protein")] + [sources(deep.get("milk"), l_) for l_ in ("kcals", "fat", "protein")]
+    rep.check(got == [["variables.meat_eaten"]] * 3 + [["tc.milk_kcals"], ["tc.milk_fat"], ["tc.milk_protein"]], rule,
+              "extractor:meat-milk:arguments", f"meat/milk reported from {got}", loc=loc(EXT, er))
     # 4. interpreter mappings
     for q, method, suffix in (("Interpreter.assign_percent_fed_from_extractor", "in_units_percent_fed", ""),
                               ("Interpreter.assign_kcals_equivalent_from_extractor", "in_units_kcals_equivalent", "_kcals_equivalent")):
@@ -453,39 +468,13 @@ def coef(index, rep, db):
               "extract_generic_results does not convert a variable's value to billions fed as value x kcals_ratio / KCALS_MONTHLY", loc=loc(EXT, g),
               detail=str(res.d.get("kcals")) if isinstance(res, PDict) else str(res))
     # meat, crops: ratio 1
-    mmf = index.func(EXT, "Extractor.extract_meat_milk_results")
-    it3 = Interp(decisions={})
-    it3.classes = {"Extractor": cls}
-    it3.call_hook = hook
-    obj3 = Obj(cls, {"constants": Path(("consts",))}, "self")
-    _ax, calls_x2, _ix = extractor_view(index)
-    mm_bound = [b_ for n_, _a, _n, b_ in calls_x2 if n_ == "extract_meat_milk_results"]
-    if len(mm_bound) != 1:
-        raise AnalysisError("extract_results: expected one call of extract_meat_milk_results")
-    # each parameter stands for what extract_results hands over for it: the meat variable family, the three milk series
-    mm_args = {}
-    for p_, v_ in mm_bound[0].items():
-        t_ = ".".join(str(x) for x in v_.parts) if isinstance(v_, Path) else "?"
-        mm_args[p_] = Rat.atom(("meat",)) if t_ == "variables.meat_eaten" else Rat.atom((t_.replace("tc.", ""),))
-    M_ = Rat.atom(("meat",))
-    mk = Rat.atom(("milk_kcals",))
-
-    def hook3(interp, d, args, kwargs, node):
-        if d == "np.array" and len(args) == 1:
-            return args[0]
-        return hook(interp, d, args, kwargs, node)
-
-    it3.call_hook = hook3
-    try:
-        it3.call_function(mmf, [], mm_args, obj3)
-    except Exception as e:
-        raise AnalysisError(f"extract_meat_milk_results outside the fragment: {e!r}")
-    meat = obj3.attrs.get("meat")
-    milk = obj3.attrs.get("milk")
-    rep.check(isinstance(meat, PDict) and meat.d.get("kcals") == Rat.atom(("series", str(M_))) / km, rule, "meat:ratio-1",
-              "meat eaten is not converted with factor 1 / KCALS_MONTHLY (its LP coefficient is 1)", loc=loc(EXT, mmf))
-    rep.check(isinstance(milk, PDict) and milk.d.get("kcals") == mk / km, rule, "milk:ratio-1",
-              "milk kcals are not converted with factor 1 / KCALS_MONTHLY", loc=loc(EXT, mmf))
+    meat = deep.get("meat")
+    milk = deep.get("milk")
+    mk = Rat.atom(K(("tc", "milk_kcals"), None))
+    rep.check(isinstance(meat, PDict) and meat.d.get("kcals") == Rat.atom(("series", "variables.meat_eaten")) / km, rule, "meat:ratio-1",
+              "meat eaten is not converted with factor 1 / KCALS_MONTHLY (its LP coefficient is 1)", loc=loc(EXT, er_))
+    rep.check(isinstance(milk, PDict) and isinstance(milk.d.get("kcals"), Rat) and milk.d.get("kcals") == _it_d.to_rat(Path(("tc", "milk_kcals"))) / km, rule,
+              "milk:ratio-1", "milk kcals are not converted with factor 1 / KCALS_MONTHLY", loc=loc(EXT, er_))
     rep.check(lp.get("meat_eaten") == Rat.const(1) and lp.get("crops_food_to_humans") == Rat.const(1), rule, "lp:meat-and-crops-coefficient-1",
               "meat / crops no longer enter the LP consumption sum with coefficient 1", loc=OPT)
     cf = index.func(EXT, "Extractor.create_food_object_from_fat_protein_variables")
